@@ -205,7 +205,7 @@ fn main() {
     run.assume("plain notation with a negative scale falls under the zero-padding exemption (it cannot express a negative scale)");
 
     // S1: digit lengths x every scale -40..60 x patterns x signs
-    let max_len: usize = tier.pick(40, 100);
+    let max_len: usize = tier.pick(40, 400);
     run.bound("S1_digit_lengths", format!("1..={}", max_len));
     run.bound("S1_scales", "-40..=60");
     run.par("S1 length x scale x pattern", max_len + 1, |len| {
@@ -230,7 +230,7 @@ fn main() {
     });
 
     // S2: small-scope product
-    let nmax: i64 = tier.pick(9_999, 99_999);
+    let nmax: i64 = tier.pick(9_999, 999_999);
     let smax: i64 = tier.pick(8, 12);
     run.bound("S2_unscaled_max", nmax);
     run.bound("S2_scales", format!("-{0}..={0}", smax));
